@@ -441,7 +441,7 @@ class Unit:
             replaced = [n for n in replaced if n in spec.replace]
         parts = []
         parts.append('#include "verif_prelude.h"\n')
-        parts.append("int __verif_exc;\nunsigned long verif_atomic_ops;\nunsigned long verif_gi, verif_gj, verif_hi, verif_hj, verif_mm;\n")
+        parts.append("int __verif_exc;\nunsigned long verif_atomic_ops;\nunsigned long verif_gi, verif_gj, verif_hi, verif_hj, verif_mm;\nunsigned long verif_sp_dest_i, verif_sp_dest_j, verif_sp_src_i, verif_sp_src_j, verif_sp_kept;\n")
         parts.append(self.nondet_decls())
         # records/globals are global to the translator: emit all that exist (cheap)
         body_parts = []
